@@ -216,3 +216,8 @@ PROPS['C01']['kani'] = {'quick': [H('c01::c01_ipv4_text_is_dotted_quad_16', 'std
                         'thorough': []}
 PROPS['C01']['kani_functions'] = ['std::net::Ipv4Addr::from_str (address-text clause)', 'core::num::<impl FromStr for u16>::from_str (model conformance)']
 PROPS['C01']['kani_stubs'] = ['Engine K: no std function stubbed']
+
+PROPS['C07']['kani']['quick'].append(H('c07::c07_unix_sparse_content', 'unix family: constant fill with 3 symbolic bytes per path (first, middle, last), command/transport symbolic; bytes vs reference and parse-back', FS300))
+
+PROPS['C07']['mirsym'] = True
+PROPS['C07']['outside_claim'] = list(PROPS['C07']['outside_claim']) + ['Engine M half: wire bytes of the constructors and of one (quick) / two (thorough) writes only; no parse-back in M']
